@@ -433,11 +433,11 @@ func extraSuites(tier string) []qx.SuiteItem {
 	}
 	ff := map[protocol.ApiKey][]string{protocol.Fetch: {"stall", "drop"}, protocol.Metadata: {"stall"}, protocol.ListOffsets: {"drop"}}
 	gf := map[protocol.ApiKey][]string{protocol.Fetch: {"stall"}, protocol.Heartbeat: {"err:27", "stall"}, protocol.OffsetCommit: {"stall", "err:27"}, protocol.JoinGroup: {"stall"}, protocol.LeaveGroup: {"stall"}}
-	return []qx.SuiteItem{
+	return append([]qx.SuiteItem{
 		{Scn: (&rscn{name: "reader-close-and-cancel", faults: ff}).scenario(), Bound: b},
 		{Scn: (&rscn{name: "reader-broker-down", faults: map[protocol.ApiKey][]string{protocol.Fetch: {"drop"}}, down: true}).scenario(), Bound: b},
 		{Scn: (&rscn{name: "group-reader-close-and-cancel", group: true, faults: gf}).scenario(), Bound: b},
 		{Scn: transportCancel(b + 1), Bound: b + 1},
 		{Scn: writerOwnTransport(b + 1), Bound: b + 1},
-	}
+	}, readerFineSuite(tier)...)
 }
